@@ -123,11 +123,11 @@ func VerifC19_RouterMirror() {
 	verifQueueGoroutines(true)
 	started := false
 	for k := 0; k < nev; k++ {
-		n := 0
-		if k > 0 {
+		n := k // the first two events are fixed: advertisements of n1 and n2
+		if k > 1 {
 			n = verifChoice("neighbour", nn)
 		}
-		if k > 0 && alive[n] && verifBool("dies") {
+		if k > 1 && alive[n] && verifBool("dies") {
 			// n has not been heard of for longer than the dead interval
 			table.VerifXC19Age(dv.neighbors.Get(nbrs[n]), cfg.RouterDeadInterval()+time.Second)
 			alive[n] = false
@@ -141,9 +141,12 @@ func VerifC19_RouterMirror() {
 			adv := &tlv.Advertisement{}
 			for d := 0; d < 2; d++ {
 				offer[n][d] = 16
-				if k == 0 {
-					// the first event is fixed: n1 offers d1 at cost 1 and d2 at cost 2
-					c := uint64(1 + d)
+				if k == 1 && d == 1 {
+					continue // n2 offers d1 only
+				}
+				if k <= 1 {
+					// fixed pre-history: n1 offers d1 at cost 1 and d2 at cost 2, then n2 offers d1 at cost 2
+					c := uint64(1 + d + k)
 					offer[n][d] = c + 1
 					adv.Entries = append(adv.Entries, &tlv.AdvEntry{
 						Destination: &tlv.Destination{Name: dests[d]}, NextHop: &tlv.Destination{Name: via}, Cost: c, OtherCost: 16})
